@@ -15,6 +15,8 @@ import Nlmodel.Proofs.Lemmas.ParsedFloats
 import Nlmodel.Proofs.Lemmas.Resolve6Top
 import Nlmodel.Proofs.Lemmas.SyntacticOnly
 import Nlmodel.Proofs.Lemmas.Resolve7Top
+import Nlmodel.Proofs.Lemmas.Sim8Embed
+import Nlmodel.Proofs.Lemmas.Sim8Example
 namespace Nl
 namespace C01
 
@@ -441,6 +443,28 @@ theorem C01_nested_functions_eval_text_no_validation (cc : CharClass) (src : Tex
 
 /-- non-vacuity: a named function defined inside a function and returned is in the syntactic class -/
 example : Sim7.src7Top Sim7.ex7Ast1 = true := by decide
+
+/-- FORWARD SIMULATION, stage 8: NAMED function literals in every expression position (as a call argument, immediately called,
+    as a `stel` initialiser, an array element, an operand, the right side of an assignment) — the expression judgments carry the
+    scopes AFTER the expression (`Sim8.Z8E .. Γ' Λ'`), threaded left to right as the resolver does (arguments before the callee);
+    a normal completion lands in the output scopes, an abrupt one in the input scopes.  Stage 7 embeds (`Sim8.emb_top`). -/
+theorem C01_named_literals_simulation (W : Sim6.World) (hW : Sim8.WOK8 W) (f : Nat) : Sim8.PAll8 W f := Sim8.pall8 hW f
+
+/-- THE OBSERVATION, stage 8, by validation (`Sim8.inFragment8`, decidable, proved sound): whatever the definitional semantics
+    answers is what `eval` answers for every large enough budget, or the machine stops at its stack/frame limit.  With stage 8
+    the fragment is the WHOLE language except: `stop`/`volgende` where an operand is pending or in a loop condition (K3: the
+    property is false), a function literal whose body uses a block-scoped global of a top-level block or a local of an
+    enclosing function... which the resolver rejects anyway (no closures) resp. U1 (false), and a named literal that refers
+    to ITSELF from inside a larger expression. -/
+theorem C01_named_literals_eval_text (cc : CharClass) (src : Text) (ast : Block) (r : RBlock) (bc : Bytecode)
+    (hp : parse cc src = .ok ast) (hc : compileProgram ast = .ok (r, bc)) (hin : Sim8.inFragment8 r = true) (F : Nat) :
+    (∃ n out, ∀ k, evalText cc (n + k) src = .error .index out) ∨
+    match specText cc F src with
+    | .value t out => ∃ n, ∀ k, evalText cc (n + k) src = .value t out
+    | .error e out => ∃ n, ∀ k, evalText cc (n + k) src = .error e out
+    | .fault _ => False
+    | _ => True :=
+  Sim8.eval_text8 cc src ast r bc hp hc hin F
 
 /-- the side condition the fragments put on float literals (`SimH.LitF`: sign bit clear, not NaN) holds for EVERY
     literal of EVERY parsed program: a number token starts with a digit (`ParsedFloats.lex_tokens_ok`), the decimal
